@@ -16,9 +16,10 @@ from .heapmodel import HeapMixin
 from .specmode import SpecMixin
 from .ghost import GhostMixin
 from .bytesmodel import BytesMixin
+from .modular import ModularMixin
 
 
-class Interp(ExprMixin, StmtMixin, CallMixin, BuiltinMixin, HeapMixin, SpecMixin, GhostMixin, BytesMixin):
+class Interp(ExprMixin, StmtMixin, CallMixin, BuiltinMixin, HeapMixin, SpecMixin, GhostMixin, BytesMixin, ModularMixin):
     def __init__(self, program, ctl, timeout_ms=2000, spec_env=None):
         self.P = program
         self.ctl = ctl
@@ -46,6 +47,9 @@ class Interp(ExprMixin, StmtMixin, CallMixin, BuiltinMixin, HeapMixin, SpecMixin
         self.trace = []             # human-readable decision labels
         self.events = []            # ghost trace of external effects (encoder calls...)
         self.bconsts = {}
+        self.modular_used = set()
+        self.bounds_hit = set()
+        self.bounds_used = set()
         self.init_ghost()
         self.deferred = []
         self.touched_idx = []
